@@ -135,6 +135,23 @@ def build(cfg, values=None):
                 KG = p1.calc_kG0(c=c0, nx=nq, ny=nq, silent=True).todict()
                 for k, v in sorted(KG.items()):
                     obs.append(('kG-numeric-zero-state[%d,%d]' % k, v, 0))
+        elif rel == 'h':
+            # explicit placement (size, row0, col0) describes the same matrix as the default placement, shifted -- with a constant
+            # pre-load in k0
+            from compmech.sparse import finalize_symmetric_matrix
+            model = cfg['model']
+            off = cfg.get('off', 2)
+            p1 = common(ctx.new_panel(model, m, n))
+            if model == 'kpanel':
+                ctx.override_sections(1)
+            p1.Nxx_cte, p1.Nyy_cte, p1.Nxy_cte = ctx.V('Nxx_cte'), ctx.V('Nyy_cte'), ctx.V('Nxy_cte')
+            size0 = 3 * m * n
+            for nm in ('k0', 'kG0', 'kM'):
+                fn = getattr(p1, 'calc_' + nm)
+                A = fn(silent=True).todict()
+                B = finalize_symmetric_matrix(fn(size=size0 + off + 1, row0=off, col0=off, silent=True, finalize=False)).todict()
+                for k in sorted(set(A) | {(r - off, c - off) for (r, c) in B}):
+                    obs.append(('%s-placed-vs-default[%d,%d]' % (nm, k[0], k[1]), B.get((k[0] + off, k[1] + off), 0), A.get(k, 0)))
         elif rel == 'g':
             # the numbers of integration points given as ARGUMENTS describe the same computation as the same numbers stored in
             # the panel attributes nx, ny (state-based k0, kG0, internal force at a symbolic state)
@@ -256,6 +273,7 @@ def configs(tier, seed):
             out.append({'rel': 'b', 'm': 5, 'n': 4, 'which': which, 'group': '(b) cylinder(1/r=0)=plate:%s' % which})
     for model in ('plate', 'cpanel'):
         out.append({'rel': 'd', 'm': 2, 'n': 2, 'which': 'k0', 'model': model, 'nq': 8, 'group': '(d) numeric=analytic:%s' % model, 'kG': True})
+        out.append({'rel': 'h', 'm': 2, 'n': 1, 'which': 'k0', 'model': model, 'off': 2, 'group': '(h) explicit placement = default placement:%s' % model})
         out.append({'rel': 'g', 'm': 1, 'n': 2, 'which': 'k0', 'model': model, 'nxy': (1, 2), 'group': '(g) integration points as arguments = as attributes:%s' % model})
         out.append({'rel': 'd', 'm': 2, 'n': 1, 'which': 'k0', 'model': model, 'nq': 8, 'ortho': True, 'group': '(d) numeric=analytic force_orthotropic:%s' % model})
         if not quick:
